@@ -29,7 +29,7 @@ TABLE = {
                                       "ema_default_mono", "ema_affine", "alma_hull", "alma_const", "alma_mono", "alma_affine", "alma_steady_is_sma", "ema_hull_large_alpha_refuted"]],
  "C05": [("Proofs/RsiP", n) for n in ["rsi_closed_form", "myrsi_closed_form", "rsi_answer", "myrsi_answer", "rsi_warmup", "myrsi_warmup", "rsi_rising", "myrsi_rising",
                                       "rsi_falling", "myrsi_falling", "rsi_negation", "rsi_negation_flat", "myrsi_negation", "rsi_flat", "myrsi_flat"]],
- "C06": [("Proofs/CorrP", n) for n in ["cti_closed_form", "cti_affine", "cti_pos", "cti_neg_decr", "cti_neg", "cti_monotone_refuted", "cti_warmup_refuted", "net_closed_form",
+ "C06": [("Proofs/CorrP", n) for n in ["cti_closed_form", "cti_affine", "cti_pos", "cti_neg_decr", "cti_neg", "cti_monotone_refuted", "cti_warmup_is_pearson", "net_closed_form",
                                        "net_monotone", "net_neg", "net_order_only", "net_incr_map", "cog_closed_form", "cog_const"]],
  "C07": [("Proofs/RsiP", n) for n in ["rsi_range", "myrsi_range"]] + [("Proofs/HlnP", n) for n in ["hln_range", "entropy_range"]] +
         [("Proofs/CorrP", n) for n in ["cti_range", "net_range", "cog_range"]] + [("Proofs/WelfP", n) for n in ["welford_last_nonneg", "welford_var_nonneg", "vsct_bound"]] +
@@ -47,7 +47,7 @@ TABLE = {
         [("Proofs/LinCC", n) for n in ["cyber_closed_form", "cyber_closed_form_gen"]],
  "C12": [("Proofs/HlnP", n) for n in ["hln_affine_invariant", "hln_negation", "entropy_scale_invariant"]] +
         [("Proofs/WelfP", n) for n in ["vsct_affine_invariant", "vst_scale_invariant", "welford_mean_scale", "welford_last_scale", "vsct_negate", "vst_negate", "vst_scale_flat_refuted"]] +
-        [("Proofs/CorrP", n) for n in ["cti_affine_inv", "cti_neg", "net_affine_inv", "net_neg", "cog_scale", "cti_warmup_refuted"]] +
+        [("Proofs/CorrP", n) for n in ["cti_affine_inv", "cti_neg", "net_affine_inv", "net_neg", "cog_scale", "cti_warmup_is_pearson"]] +
         [("Proofs/RsiP", n) for n in ["rsi_scale_invariant", "myrsi_scale_invariant", "rsi_negation", "myrsi_negation"]] +
         [("Proofs/WinAP", n) for n in ["min_scale", "max_scale", "min_neg", "max_neg", "cumulative_scale", "roc_scale"]] +
         [("Proofs/AvgP", n) for n in ["sma_scale", "ema_scale", "alma_scale"]] + [("Proofs/RollP", n) for n in ["drawdown_scale_invariant", "lnret_scale_invariant"]] +
@@ -113,7 +113,7 @@ EXTRA2 = {
 EXTRA = {
  "C07": [("Proofs/EhlLrsi", "lrsi_range"), ("Proofs/EhlEft", "eft_range_strong"), ("Proofs/EhlFlex", "trendflex_range"), ("Proofs/EhlFlex", "reflex_range"),
          ("Proofs/EhlPfe", "pfe_range_refuted"), ("Proofs/EhlPfe", "pfe_const_value"), ("Proofs/EhlPfe", "pfe_abs_le_one_iff"),
-         ("Proofs/FltP", "rsi_range_f64_refuted"), ("Proofs/FltP", "myrsi_range_f64_refuted"), ("Proofs/FltP", "cti_range_f64_refuted"), ("Proofs/FltP", "vsct_bound_f64_refuted")],
+         ("Proofs/FltP", "rsi_range_f64_refuted"), ("Proofs/FltP", "myrsi_range_f64_refuted"), ("Proofs/FltP", "cti_range_f64"), ("Proofs/FltP", "vsct_bound_f64_refuted")],
  "C09": [("Proofs/StabEma", "ema_bibo"), ("Proofs/StabEma", "ema_fading_exact"), ("Proofs/StabEma", "ema_fading"), ("Proofs/StabEma", "ema_rho_range"), ("Proofs/StabEma", "ema_contraction"),
          ("Proofs/StabLag", "laguerre_bibo"), ("Proofs/StabLag", "laguerre_fading"), ("Proofs/StabLag", "laguerre_L0_geometric"), ("Proofs/StabSS", "ss_bibo"), ("Proofs/StabSS", "ss_fading"),
          ("Proofs/StabSS", "ss_homogeneous_exact"), ("Proofs/StabRoof", "roofing_pole_lt1"), ("Proofs/StabRoof", "roofing_bibo"), ("Proofs/StabRoof", "roofing_dc_decays"),
